@@ -138,6 +138,7 @@ class Ref(object):
             self.off[n] = o
             o += size_of(self.tab[n]['shape'])
         self.N = o
+        self.override = {}     # (comp path, out name, in name) -> replacement partial matrix
         self.free = np.zeros(self.N, dtype=bool)
         for n in self.outs:
             if self.tab[n]['kind'] in ('ivc', 'auto'):
@@ -217,6 +218,9 @@ class Ref(object):
                         P = q if P is None else P + q
                     if P is None:
                         continue
+                    ov_ = self.override.get((p, on, v['name']))
+                    if ov_ is not None:
+                        P = np.asarray(ov_, dtype=float)
                     cn = self.conn[p + '.' + v['name']]
                     so = self.off[cn['src']]
                     rows = np.arange(ro.start, ro.stop)
@@ -293,6 +297,13 @@ def _make_component_classes():
             pat = q if pat is None else (pat | q)
         return pat
 
+    def _fmt_for(fmt, key):
+        if isinstance(fmt, dict):
+            if 'method' in fmt:
+                return fmt          # approximation options for every partial of the component
+            return fmt.get(key, 'dense')
+        return fmt
+
     class _Mixin(object):
         def _spec_setup(self):
             c = self.options['spec']
@@ -321,10 +332,10 @@ def _make_component_classes():
                     if pat is None:
                         continue
                     of, wrt = ov['name'], iv['name']
-                    f = fmt
-                    if isinstance(fmt, dict):
-                        f = fmt.get(of + '|' + wrt, 'dense')
-                    if f in ('fd', 'cs'):
+                    f = _fmt_for(fmt, of + '|' + wrt)
+                    if isinstance(f, dict):
+                        self.declare_partials(of, wrt, **f)
+                    elif f in ('fd', 'cs'):
                         self.declare_partials(of, wrt, method=f)
                     elif f == 'fd_central':
                         self.declare_partials(of, wrt, method='fd', form='central')
@@ -353,11 +364,14 @@ def _make_component_classes():
                             self._pinfo[(of, wrt)] = (f, rows, cols)
                     else:
                         raise ValueError('unknown partial format %r' % (f,))
+            if c.get('coloring'):
+                self.declare_coloring(**c['coloring'])
             if c['kind'] == 'imp':
                 for ov in c['outputs']:
-                    f = fmt if not isinstance(fmt, dict) else fmt.get(ov['name'] + '|' + ov['name'],
-                                                                         'dense')
-                    if f in ('fd', 'cs'):
+                    f = _fmt_for(fmt, ov['name'] + '|' + ov['name'])
+                    if isinstance(f, dict):
+                        self.declare_partials(ov['name'], ov['name'], **f)
+                    elif f in ('fd', 'cs'):
                         self.declare_partials(ov['name'], ov['name'], method=f)
                     elif f == 'fd_central':
                         self.declare_partials(ov['name'], ov['name'], method='fd', form='central')
@@ -395,8 +409,8 @@ def _make_component_classes():
             for ov in c['outputs']:
                 for iv in c['inputs']:
                     of, wrt = ov['name'], iv['name']
-                    f = fmt if not isinstance(fmt, dict) else fmt.get(of + '|' + wrt, 'dense')
-                    if f in ('fd', 'cs', 'fd_central', 'matfree'):
+                    f = _fmt_for(fmt, of + '|' + wrt)
+                    if isinstance(f, dict) or f in ('fd', 'cs', 'fd_central', 'matfree'):
                         continue
                     P = self._dense_partial(inputs, of, wrt)
                     if P is None:
@@ -503,11 +517,14 @@ def _make_component_classes():
                 M = np.asarray(c['M'][on])
                 g = np.asarray(c['g'][on])
                 ok = False
-                for _ in range(100):
+                forced = 3 if np.iscomplexobj(f) or np.iscomplexobj(u) else 0
+                for it in range(100):
                     r = M @ u + g * u * u * u - f
-                    if np.max(np.abs(r)) <= 1e-13 * max(1.0, np.max(np.abs(f))):
+                    if it >= forced and np.max(np.abs(r.real)) <= 1e-13 * max(
+                            1.0, np.max(np.abs(f))):
                         ok = True
                         break
+                    # (under complex step the imaginary part needs Newton updates of its own)
                     u = u - np.linalg.solve(M + np.diag(3.0 * g * u * u), r)
                 if not ok:
                     raise om.AnalysisError('%s: internal Newton did not converge' % self.pathname)
@@ -523,8 +540,8 @@ def _make_component_classes():
                 u = outputs[on].ravel().real
                 d = np.asarray(c['M'][on]) + np.diag(3.0 * np.asarray(c['g'][on]) * u * u)
                 self._dRdu[on] = d
-                f = fmt if not isinstance(fmt, dict) else fmt.get(on + '|' + on, 'dense')
-                if f not in ('fd', 'cs', 'fd_central', 'matfree'):
+                f = _fmt_for(fmt, on + '|' + on)
+                if not isinstance(f, dict) and f not in ('fd', 'cs', 'fd_central', 'matfree'):
                     partials[on, on] = d
 
         def solve_linear(self, d_outputs, d_residuals, mode):
